@@ -1,9 +1,274 @@
-//! C16 sessions (seeded driver). Fill in.
+//! C16 sessions: for every calendar identifier the crate accepts, walk consecutive ISO days in dense windows
+//! (every era boundary of the calendar, +-800 days around year ends / leap months, the calendar's own epoch,
+//! both ends of the ISO range, random far windows) logging every calendar-derived getter (`Cal.Day`), then
+//! rebuild the date from the reported fields in every supported combination and through every era alias
+//! (`Cal.Rebuild`), change calendars (`Cal.WithCalendar`), and parse identifier spellings (`Cal.Id`).
+//! The driver decides nothing: windows are chosen from the implementation's own answers only to *place* them
+//! (where does the era name change, where does the year number change); all judging is done by Trace_Cal.tla.
 use super::Tracer;
 use crate::gen::*;
+use crate::ops;
 use crate::rng::Rng;
-use serde_json::json;
+use crate::sp_c16::{calendars, crate_aliases, CANDIDATES};
+use serde_json::{json, Value};
+use std::str::FromStr;
+use temporal_rs::{Calendar, PlainDate};
+
+/// era synonyms of the intl-era-monthcode table the crate's era.rs was copied from (only used to pick which
+/// aliases to try on a day whose reported era is in the same row; the trace spec has its own table and re-decides).
+const SYNONYMS: &[(&str, &[&str])] = &[
+    ("buddhist", &["buddhist", "be"]),
+    ("coptic", &["coptic"]), ("coptic", &["coptic-inverse"]),
+    ("ethiopic", &["ethiopic", "incar"]), ("ethiopic", &["ethiopic-inverse"]), ("ethiopic", &["ethioaa", "ethiopic-amete-alem", "mundi"]),
+    ("ethioaa", &["ethioaa", "ethiopic-amete-alem", "mundi"]),
+    ("gregory", &["gregory", "ce", "ad"]), ("gregory", &["gregory-inverse", "bc", "bce"]),
+    ("hebrew", &["hebrew", "am"]), ("indian", &["indian", "saka"]),
+    ("islamic", &["islamic", "ah"]), ("islamic-civil", &["islamic-civil", "islamicc", "ah"]),
+    ("islamic-tbla", &["islamic-tbla", "ah"]), ("islamic-umalqura", &["islamic-umalqura", "ah"]),
+    ("japanese", &["meiji"]), ("japanese", &["taisho"]), ("japanese", &["showa"]), ("japanese", &["heisei"]), ("japanese", &["reiwa"]),
+    ("japanese", &["japanese", "gregory", "ce", "ad"]), ("japanese", &["japanese-inverse", "gregory-inverse", "bc", "bce"]),
+    ("japanext", &["japanese", "gregory", "ce", "ad"]), ("japanext", &["japanese-inverse", "gregory-inverse", "bc", "bce"]),
+    ("persian", &["persian", "ap"]),
+    ("roc", &["roc", "minguo"]), ("roc", &["roc-inverse", "before-roc"]),
+];
+/// eras that describe a day by a different year count than the reported one: (calendar, names, eraYear = year + offset, only when year <= max_year)
+const ALT_ERAS: &[(&str, &[&str], i64, i64)] = &[("ethiopic", &["ethioaa", "ethiopic-amete-alem", "mundi"], 5500, 0)];
+
+/// per-calendar event buffer (calendars are walked on parallel threads, then written in a fixed order)
+struct Local { lines: Vec<String>, n: usize }
+impl Local {
+    fn call(&mut self, op: &str, args: Value) -> Value {
+        let out = ops::exec(op, &args);
+        self.lines.push(json!({"op": op, "args": args, "out": out}).to_string());
+        self.n += 1;
+        out
+    }
+    fn reset(&mut self) { self.lines.push(json!({"op": "reset"}).to_string()); self.n += 1; }
+}
+
+fn day_args(cal: &str, n: i64) -> Value { json!({"cal": cal, "n": n, "iso": date_json(n)}) }
+/// placement probe (era name and year only; never logged, never judged)
+fn peek(cal: &str, n: i64) -> Value {
+    let (y, m, d) = civil(n);
+    let c = cal.to_string();
+    match std::panic::catch_unwind(move || {
+        let date = PlainDate::try_new(y as i32, m as u8, d as u8, Calendar::from_str(&c).ok()?).ok()?;
+        Some((date.era().map(|e| e.as_str().to_string()), date.year()))
+    }) {
+        Ok(Some((e, y))) => json!({"val": {"era": e.map(|e| vec![e]).unwrap_or_default(), "year": y}}),
+        _ => json!({}),
+    }
+}
+fn era_of(v: &Value) -> String { v["val"]["era"].get(0).and_then(|e| e.as_str()).unwrap_or("").to_string() }
+fn year_of(v: &Value) -> Option<i64> { v["val"]["year"].as_i64() }
+/// calendars whose conversions outside the library's precomputed tables cost 10..1000 ms per call
+fn slow(cal: &str) -> bool { cal == "islamic" || cal == "islamic-umalqura" }
+/// calendars computed from astronomical approximations: tens of thousands of years from now the library's own
+/// assertions fail (calendrical_calculations: "diff == 29 || diff == 30", "Found year .. with length 482"), so the
+/// random far windows stay within +-8000 ISO years ("where the calendar library allows") and only a few days at
+/// each end of the ISO range are visited (they panic; recorded as a finding, also relevant to C03)
+fn astro(cal: &str) -> bool { matches!(cal, "chinese" | "dangi" | "islamic" | "islamic-umalqura") }
+
+/// first n in (lo, hi] whose key differs from key(lo) (bisect; assumes one change in between)
+fn bisect<K: PartialEq>(cal: &str, mut lo: i64, mut hi: i64, key: &dyn Fn(&Value) -> K) -> i64 {
+    let k0 = key(&peek(cal, lo));
+    while hi - lo > 1 {
+        let mid = lo + (hi - lo) / 2;
+        if key(&peek(cal, mid)) == k0 { lo = mid } else { hi = mid }
+    }
+    hi
+}
+
+/// ISO days at which the reported era name changes (scan + bisect), within [lo, hi]
+fn era_boundaries(cal: &str, lo: i64, hi: i64, stride: i64) -> Vec<i64> {
+    let mut out = Vec::new();
+    let mut prev_n = lo;
+    let mut prev = era_of(&peek(cal, lo));
+    let mut n = lo + stride;
+    while n <= hi {
+        let e = era_of(&peek(cal, n));
+        if e != prev { out.push(bisect(cal, prev_n, n, &era_of)); }
+        prev = e; prev_n = n; n += stride;
+    }
+    out
+}
+
+/// the ISO day on which the calendar's year number becomes >= 1 (the calendar's epoch), if inside the range
+fn epoch_day(cal: &str) -> Option<i64> {
+    let (mut lo, mut hi) = (MIN_DAY + 1, MAX_DAY);
+    let pos = |n: i64| year_of(&peek(cal, n)).map(|y| y >= 1);
+    if pos(lo)? || !pos(hi)? { return None; }
+    while hi - lo > 1 {
+        let mid = lo + (hi - lo) / 2;
+        if pos(mid)? { hi = mid } else { lo = mid }
+    }
+    Some(hi)
+}
+
+struct Plan { cal: String, lo: i64, hi: i64, why: &'static str }
+
+fn clampw(lo: i64, hi: i64) -> (i64, i64) { (lo.max(MIN_DAY), hi.min(MAX_DAY)) }
+
+fn plan(cal: &str, thorough: bool, r: &mut Rng) -> Vec<Plan> {
+    let mut w: Vec<(i64, i64, &'static str)> = Vec::new();
+    let d = |y, m, dd| days_from_civil(y, m, dd);
+    // era boundaries: coarse scan over ISO years -6000..2200 (eras shorter than four years exist only in the
+    // Japanese calendars, which get a fine scan); the two astronomical Islamic calendars have a single era and
+    // cost ~30 ms per call out there, so they are not scanned
+    let mut bs = if slow(cal) { Vec::new() } else { era_boundaries(cal, d(-6000, 1, 1), d(2200, 1, 1), 1500) };
+    if cal.starts_with("jap") {
+        bs.extend(era_boundaries(cal, d(600, 1, 1), d(2030, 1, 1), 13));
+        bs.sort(); bs.dedup();
+    }
+    let modern = d(1860, 1, 1);
+    let max_old = if thorough { 400 } else { 24 };
+    let old: Vec<i64> = bs.iter().cloned().filter(|b| *b < modern).collect();
+    let mut chosen: Vec<i64> = bs.iter().cloned().filter(|b| *b >= modern).collect();
+    if old.len() <= max_old { chosen.extend(old) } else {
+        // always the earliest and latest pre-modern ones, the rest sampled
+        chosen.push(old[0]); chosen.push(old[old.len() - 1]);
+        for _ in 0..max_old - 2 { chosen.push(*r.pick(&old)); }
+    }
+    chosen.sort(); chosen.dedup();
+    for b in chosen { w.push((b - 12, b + 12, "era-boundary")); }
+    // year ends / leap months: 1600 consecutive days hold >= 4 year ends and, for lunisolar calendars, a leap month
+    w.push((d(2022, 6, 1), d(2022, 6, 1) + 1600, "dense-2024"));
+    let a = d(r.range(1000, 2150), r.range(1, 12), 1);
+    w.push((a, a + if thorough { 3200 } else { 1600 }, "dense-random"));
+    if thorough {
+        for y in [1899, 2099, 1582, 2299] { w.push((d(y, 1, 1) - 800, d(y, 1, 1) + 800, "dense-table-edge")); }
+        for _ in 0..4 { let a = d(r.range(-3000, 3000), r.range(1, 12), 1); w.push((a, a + 1600, "dense-random")); }
+    } else {
+        w.push((d(1899, 6, 1), d(1899, 6, 1) + 800, "dense-table-edge"));
+        w.push((d(2099, 6, 1), d(2099, 6, 1) + 800, "dense-table-edge"));
+    }
+    // the calendar's own epoch (year 0/1 or the change to an inverse era)
+    if let Some(e) = epoch_day(cal) { w.push((e - 400, e + 400, "epoch")); }
+    // ISO year 0/1 (negative ISO years)
+    w.push((d(0, 1, 1) - 20, d(1, 1, 1) + 20, "iso-year-0"));
+    // ends of the supported range
+    let k = if astro(cal) { if thorough { 30 } else { 6 } } else if thorough { 800 } else { 400 };
+    w.push((MIN_DAY, MIN_DAY + k, "range-min"));
+    w.push((MAX_DAY - k, MAX_DAY, "range-max"));
+    for _ in 0..(if thorough { 12 } else { 3 }) {
+        let a = if astro(cal) { r.range(d(-8000, 1, 1), d(8000, 1, 1)) } else { r.range(MIN_DAY, MAX_DAY - 400) };
+        w.push((a, a + if thorough { 400 } else { 200 }, "far-random"));
+    }
+    w.into_iter().map(|(lo, hi, why)| {
+        let (mut lo, mut hi) = clampw(lo, hi);
+        if slow(cal) && !(lo >= d(1850, 1, 1) && hi <= d(2150, 1, 1)) {
+            // cost cap (see slow()): keep the middle of the window, where the boundary it was placed around is
+            let far = lo < d(-9000, 1, 1) || hi > d(9000, 1, 1);
+            let len = match (far, thorough) { (true, false) => 3, (true, true) => 12, (false, false) => 60, (false, true) => 400 };
+            if hi - lo > len {
+                let mid = if why == "range-min" { lo + len / 2 } else if why == "range-max" { hi - len / 2 } else { lo + (hi - lo) / 2 };
+                lo = (mid - len / 2).max(lo); hi = (lo + len).min(hi);
+            }
+        }
+        Plan { cal: cal.to_string(), lo, hi, why }
+    }).collect()
+}
+
+fn pick_ovf(r: &mut Rng) -> Option<&'static str> { match r.range(0, 2) { 0 => None, 1 => Some("constrain"), _ => Some("reject") } }
+
+fn rebuild(t: &mut Local, r: &mut Rng, cal: &str, n: i64, f: &Value, year: Option<(&str, i64)>, by: &str) {
+    // year: None -> the `year` field; Some((era, era_year)) -> era + eraYear
+    let mut a = json!({"cal": cal, "n": n, "day": f["day"]});
+    match year { None => { a["year"] = f["year"].clone(); } Some((e, y)) => { a["era"] = json!(e); a["ey"] = json!(y); } }
+    if by == "mc" || by == "m+mc" { a["mc"] = f["mc"].clone(); }
+    if by == "m" || by == "m+mc" { a["month"] = f["month"].clone(); }
+    if let Some(o) = pick_ovf(r) { a["ovf"] = json!(o); }
+    if r.chance(1, 5) { a["via"] = json!("calendar"); }
+    t.call("Cal.Rebuild", a);
+}
+
+fn case_variants(s: &str, r: &mut Rng) -> Vec<String> {
+    let mut v = vec![s.to_string(), s.to_uppercase()];
+    let mut c = s.chars();
+    if let Some(f) = c.next() { v.push(f.to_uppercase().collect::<String>() + c.as_str()); }
+    for _ in 0..2 { v.push(s.chars().map(|ch| if r.chance(1, 2) { ch.to_ascii_uppercase() } else { ch }).collect()); }
+    v
+}
+
+fn walk_calendar(cal: &str, cals: &[String], crate_al: &[(String, String)], thorough: bool, seed: u64, cap: usize) -> Local {
+    let mut t = Local { lines: Vec::new(), n: 0 };
+    let r = &mut Rng::new(seed);
+    let t = &mut t;
+    for p in plan(cal, thorough, r) {
+        if t.n >= cap { break; }
+        let mut prev_era = String::new();
+        for day in p.lo..=p.hi {
+            let out = t.call("Cal.Day", day_args(&p.cal, day));
+            if out["kind"] != "ok" { continue; }
+            let f = &out["val"];
+            let (dd, dim) = (f["day"].as_i64().unwrap_or(0), f["dim"].as_i64().unwrap_or(0));
+            let era = era_of(&out);
+            let leapish = f["mc"].as_array().map(|m| m.len() == 4).unwrap_or(false) || f["month"].as_i64().unwrap_or(0) >= 13;
+            let dense = dd <= 1 || dd >= dim || era != prev_era || day - p.lo < 2 || p.hi - day < 2
+                || r.chance(1, if leapish { 4 } else { 12 }) || p.why == "era-boundary";
+            prev_era = era.clone();
+            if dense {
+                // baseline first: year + monthCode + day; then month ordinal; then both
+                rebuild(t, r, cal, day, f, None, "mc");
+                rebuild(t, r, cal, day, f, None, "m");
+                if r.chance(1, 3) { rebuild(t, r, cal, day, f, None, "m+mc"); }
+                if !era.is_empty() {
+                    let ey = f["ey"][0].as_i64().unwrap_or(0);
+                    // the reported name itself first (baseline), then its synonyms
+                    let mut names: Vec<String> = vec![era.clone()];
+                    for (c, row) in SYNONYMS { if *c == cal && row.contains(&era.as_str()) { for a in *row { if !names.contains(&a.to_string()) { names.push(a.to_string()); } } } }
+                    for a in &names { rebuild(t, r, cal, day, f, Some((a, ey)), "mc"); }
+                    rebuild(t, r, cal, day, f, Some((&era, ey)), "m");
+                    if r.chance(1, 3) { rebuild(t, r, cal, day, f, Some((&era, ey)), "m+mc"); }
+                    let year = f["year"].as_i64().unwrap_or(0);
+                    for (c, row, off, max_year) in ALT_ERAS {
+                        if *c == cal && year <= *max_year { for a in *row { rebuild(t, r, cal, day, f, Some((a, year + off)), "mc"); } }
+                    }
+                    // aliases of the crate's own table that the synonym table does not know (e.g. misspellings): tried rarely; the spec asserts nothing for them
+                    if r.chance(1, 40) {
+                        for (c, a) in crate_al {
+                            if c == cal && !SYNONYMS.iter().any(|(c2, row)| *c2 == cal && row.contains(&a.as_str())) { rebuild(t, r, cal, day, f, Some((a, ey)), "mc"); }
+                        }
+                    }
+                }
+            }
+            if r.chance(1, 25) || (dense && r.chance(1, 6)) {
+                let to = r.pick(cals).clone();
+                let to = if r.chance(1, 4) { to.to_uppercase() } else { to };
+                let to: Vec<String> = to.chars().map(|x| x.to_string()).collect();
+                t.call("Cal.WithCalendar", json!({"from": cal, "to": to, "n": day, "iso": date_json(day)}));
+            }
+        }
+        t.reset();
+    }
+    Local { lines: std::mem::take(&mut t.lines), n: t.n }
+}
 
 pub fn drive(t: &mut Tracer, r: &mut Rng, n: usize) {
-    let _ = (t, r, n);
+    use std::io::Write;
+    let thorough = std::env::var("VERIF_TIER").map(|s| s == "thorough").unwrap_or(false);
+    let only = std::env::var("VERIF_C16_CAL").ok();
+    // ---- identifiers: every candidate spelling in several case variants (lower-case form first), both parsers
+    if only.is_none() {
+        for c in CANDIDATES {
+            for (i, s) in case_variants(c, r).into_iter().enumerate() {
+                let chars: Vec<String> = s.chars().map(|x| x.to_string()).collect();
+                t.call("Cal.Id", if i % 2 == 1 { json!({"s": chars, "via": "utf8"}) } else { json!({"s": chars}) });
+            }
+        }
+        t.reset();
+    }
+    let cals = calendars();
+    let crate_al = crate_aliases();
+    let todo: Vec<(String, u64)> = cals.iter().filter(|c| only.as_ref().map(|o| o == *c).unwrap_or(true)).map(|c| (c.clone(), r.next())).collect();
+    let cap = n / todo.len().max(1) + 1;
+    // calendars are independent: walk them on parallel threads (each with its own PRNG stream), write in a fixed order
+    let results: Vec<Local> = std::thread::scope(|s| {
+        let hs: Vec<_> = todo.iter().map(|(c, seed)| { let (cals, crate_al) = (&cals, &crate_al); s.spawn(move || walk_calendar(c, cals, crate_al, thorough, *seed, cap)) }).collect();
+        hs.into_iter().map(|h| h.join().expect("calendar walk")).collect()
+    });
+    for l in results {
+        for line in &l.lines { writeln!(t.f, "{}", line).unwrap(); }
+        t.n += l.n;
+    }
 }
